@@ -41,7 +41,9 @@ RULE = ("case = generated object dictionary (variables, records, arrays; all dat
         "ops on a freshly created LocalNode: upload(entry), download(entry, bytes, exp|exp_nosize|seg_size|"
         "seg_nosize), transfers interrupted after k segments (restart), junk frames of 1..8 bytes, stray "
         "segments with either toggle, client aborts, block-upload initiate (legal downgrade), the application changing an entry's access type "
-        "between requests. Segmented downloads also with 1..6 byte segments that are not the last one and with a "
+        "between requests (ops 'replace' / 'del_member', used by the C06 families: the application removes an "
+        "object or a record member from the serving node's dictionary, or puts a different object under the "
+        "same index). Segmented downloads also with 1..6 byte segments that are not the last one and with a "
         "trailing empty last segment (field n is valid in every segment); upload / download requests whose "
         "reserved bits and unused bytes are not zero ('dirty': the server may refuse them, but if it serves "
         "them the answer is judged like any other); the same entry uploaded repeatedly with an interrupted "
@@ -264,6 +266,16 @@ class Model:
             synth["synth"] = True
             return synth, None
         return None, "nosub"
+
+    def forget(self, index, sub=None):
+        """The object at `index` (or its member `sub`) leaves the dictionary, with its stored value."""
+        hit = (lambda k: k[0] == index) if sub is None else (lambda k: k == (index, sub))
+        if sub is None:
+            self.kinds.pop(index, None)
+        for d in (self.ent, self.store):
+            for k in [k for k in d if hit(k)]:
+                del d[k]
+        self.taint = {k for k in self.taint if not hit(k)}
 
     @staticmethod
     def readable(spec):
@@ -619,6 +631,33 @@ def run_history(case, prefix):
             var.access_type = op["access"]
             m.ent[(index, sub)] = dict(m.ent[(index, sub)], access=op["access"])
             feats.add("access-changed")
+        elif kind == "replace":
+            # the application re-shapes the object dictionary of the serving node through the dictionary's
+            # public mapping interface: the object at an index is removed (together with what the node
+            # had stored for it) and - with 'spec' - another object (other kind / data type / access
+            # type / members) is added under the same index.  Later requests are judged by the
+            # dictionary as it is then
+            spec = op.get("spec")
+            index = spec["index"] if spec is not None else op["index"]
+            if index in rig.od:
+                del rig.od[index]
+            rig.node.data_store.pop(index, None)
+            m.forget(index)
+            if spec is not None:
+                rig.od.add_object(build_od([spec])[index])
+                m.kinds[index] = spec["kind"]
+                for i_, s_, v_, _k in entries([spec]):
+                    m.ent[(i_, s_)] = v_
+            feats.add("object-replaced" if spec is not None else "object-removed")
+        elif kind == "del_member":
+            # the application removes one listed member of a record (and what the node had stored for it)
+            index, sub = op["index"], op["sub"]
+            if m.kinds.get(index) != "record" or (index, sub) not in m.ent:
+                raise ValueError("generator error: del_member on something that is not a listed record member")
+            del rig.od[index][sub]
+            rig.node.data_store.get(index, {}).pop(sub, None)
+            m.forget(index, sub)
+            feats.add("member-removed")
         elif kind == "toggle":
             # a segment with the wrong toggle bit while a transfer is in progress.  'last' (download):
             # the segment is flagged as the last one and carries 'payload' (0..7 bytes) - were the toggle
